@@ -96,6 +96,11 @@ type airOutcome struct {
 
 // tryOperation feeds one operation to a machine exactly like the CLI does (ProcessOperation with logging).
 func tryOperation(m *airgapped.Machine, op types.Operation, store bool) (out airOutcome) {
+	return tryOperationKeep(m, op, store, false)
+}
+
+// tryOperationKeep: with keep the result file stays where the machine wrote it (operators do not tidy up)
+func tryOperationKeep(m *airgapped.Machine, op types.Operation, store, keep bool) (out airOutcome) {
 	defer func() {
 		if rec := recover(); rec != nil {
 			out = airOutcome{kind: "panic", err: fmt.Sprint(rec)}
@@ -109,7 +114,9 @@ func tryOperation(m *airgapped.Machine, op types.Operation, store bool) (out air
 		return airOutcome{kind: "fatal", err: err.Error()}
 	}
 	rb, err := os.ReadFile(path)
-	os.Remove(path)
+	if !keep {
+		os.Remove(path)
+	}
 	if err != nil {
 		return airOutcome{kind: "fatal", err: "result file: " + err.Error()}
 	}
@@ -434,6 +441,52 @@ func (a *airRun) faultScenario(outDir string, n, t int) {
 			a.note(fmt.Sprintf("after faulty operations the genuine %s operation ends with %s instead of %s", op.Type, rb.kind, ra.kind))
 		}
 	}
+	// an operation fed a second time (the operator is not sure the first result made it): whatever the machine answers,
+	// the result file must be a readable operation (files of the first run are still in the folder)
+	{
+		twice, err := newMachine(filepath.Join(dir, "twice"), "pw", mnemonic)
+		if err == nil {
+			for _, op := range victim.coldLog {
+				tryOperationKeep(twice, op, true, true)
+			}
+			for _, op := range victim.coldLog {
+				o := tryOperationKeep(twice, op, true, true)
+				a.st.OutcomeHist["fed-twice/"+o.kind]++
+				if o.kind == "panic" {
+					a.mon(fmt.Sprintf("C18 never_panics: the airgapped machine panicked on a %s operation fed a second time: %s", op.Type, truncate(o.err, 100)))
+				}
+				if o.kind == "fatal" && strings.Contains(o.err, "result file") {
+					a.mon(fmt.Sprintf("C12 result_file_valid: a %s operation fed a second time leaves a result file that cannot be read: %s", op.Type, truncate(o.err, 120)))
+				}
+			}
+			twice.VerifCloseDB()
+		}
+	}
+	// C12: restart points. Reference: a machine that never stops (same mnemonic, same operations)
+	{
+		refM, err := newMachine(filepath.Join(dir, "ref"), "pw", mnemonic)
+		if err == nil {
+			var ref []string
+			for _, op := range victim.coldLog {
+				ref = append(ref, resultDigest(tryOperation(refM, op, true)))
+			}
+			refKey, _ := keyringOf(refM, round)
+			refM.VerifCloseDB()
+			if refKey != want {
+				a.mon(fmt.Sprintf("C12 same_mnemonic_same_keys: reference machine holds %s, the original %s", truncate(refKey, 90), truncate(want, 90)))
+			}
+			nops := len(victim.coldLog)
+			for _, kind := range []string{"after-step", "computed-not-logged", "logged-file-lost"} {
+				for at := 0; at < nops; at++ {
+					if a.tier != "thorough" && a.rng.Intn(2) == 0 && kind != "after-step" {
+						continue
+					}
+					a.restartScenario(dir, victim, mnemonic, round, ref, refKey, kind, at, false)
+				}
+			}
+			a.restartScenario(dir, victim, mnemonic, round, ref, refKey, "after-step", 0, true)
+		}
+	}
 	if haveKey {
 		if got, _ := keyringOf(cloneA, round); got != want {
 			a.mon(fmt.Sprintf("C12 same_mnemonic_same_keys: a machine created from the same mnemonic and fed the same operations holds %s, the original %s", truncate(got, 90), truncate(want, 90)))
@@ -441,6 +494,197 @@ func (a *airRun) faultScenario(outDir string, n, t int) {
 		if got, _ := keyringOf(cloneB, round); got != want {
 			a.note("the clone that also received faulty operations ends with a different keyring: " + truncate(got, 80))
 		}
+	}
+}
+
+// resultDigest: what can be compared between two runs of the same operation on machines with the same mnemonic:
+// the event, and the message data where it is deterministic (commitments, master key + public polynomial,
+// responses); deals are ECIES ciphertexts with fresh randomness and are compared by count and addressee only.
+func resultDigest(o airOutcome) string {
+	if o.result == nil {
+		return o.kind + ":" + truncate(o.err, 80)
+	}
+	var parts []string
+	for _, m := range o.result.ResultMsgs {
+		d := hx(m.Data)
+		switch {
+		case strings.Contains(m.Event, "deal_confirm"):
+			// ECIES ciphertext with fresh randomness: only the addressee is comparable
+			d = "deal"
+		case strings.Contains(m.Event, "response_confirm_received"):
+			// the responses are produced while ranging over a Go map and each carries a Schnorr signature whose nonce
+			// depends on that order: compare who is answered and with what verdict
+			var req struct {
+				ParticipantId int
+				Response      []byte
+			}
+			d = "responses?"
+			if json.Unmarshal(m.Data, &req) == nil {
+				var rs []struct {
+					Index    uint32
+					Response struct {
+						Index  uint32
+						Status bool
+					}
+				}
+				if json.Unmarshal(req.Response, &rs) == nil {
+					var vs []string
+					for _, x := range rs {
+						vs = append(vs, fmt.Sprintf("%d/%d/%v", x.Index, x.Response.Index, x.Response.Status))
+					}
+					sort.Strings(vs)
+					d = fmt.Sprintf("from %d: %s", req.ParticipantId, strings.Join(vs, " "))
+				}
+			}
+		}
+		parts = append(parts, m.Event+">"+m.RecipientAddr+":"+d)
+	}
+	sort.Strings(parts) // deals are produced while ranging over a map as well
+	return o.kind + " " + string(o.result.Event) + " [" + strings.Join(parts, ",") + "]"
+}
+
+// maskTimes: CreatedAt inside request payloads comes from the operation and is equal; nothing else to mask
+func digestsEqual(a, b string) bool { return a == b }
+
+// restartScenario (C12): a machine with the victim's mnemonic is fed the victim's operations and stopped / reopened /
+// replayed at the given point; every later result and the final keyring must be those of a machine that never stopped.
+func (a *airRun) restartScenario(dir string, victim *vnode, mnemonic, round string, ref []string, refKey string, kind string, at int, everyStep bool) {
+	tag := fmt.Sprintf("%s at operation %d", kind, at)
+	if everyStep {
+		tag = "restart after every step"
+	}
+	mdir := filepath.Join(dir, fmt.Sprintf("rs-%s-%d-%v", kind, at, everyStep))
+	m, err := newMachine(mdir, "pw", mnemonic)
+	if err != nil {
+		a.mon("harness: " + err.Error())
+		return
+	}
+	closeM := func() { m.VerifCloseDB() }
+	defer func() { closeM(); os.RemoveAll(mdir) }()
+	restart := func() bool {
+		m.VerifCloseDB()
+		m2, err := reopenMachine(mdir, "pw")
+		if err != nil {
+			a.mon(fmt.Sprintf("C12 restarts (%s): the machine does not open again: %v", tag, err))
+			return false
+		}
+		m = m2
+		a.st.Restarts++
+		// the operator replays the round's log (nothing to replay before the first logged operation)
+		func() {
+			defer func() {
+				if rec := recover(); rec != nil {
+					a.mon(fmt.Sprintf("C12 replay (%s): ReplayOperationsLog panicked: %v", tag, rec))
+				}
+			}()
+			if err := m.ReplayOperationsLog(round); err != nil && !strings.Contains(err.Error(), "not found") {
+				a.mon(fmt.Sprintf("C12 replay (%s): ReplayOperationsLog failed: %v", tag, truncate(err.Error(), 160)))
+			}
+		}()
+		return true
+	}
+	a.st.RestartPoints++
+	ops := victim.coldLog
+	// bookkeeping tie: the durable log and (as a shadow) the logged operations the volatile instance has seen
+	shadow := []string{}
+	obsLog := func() string {
+		var ids []string
+		var rl map[string][]types.Operation
+		if bz, ok := m.VerifDBSnapshot()["operations_log"]; ok && json.Unmarshal(bz, &rl) == nil {
+			for _, o := range rl[round] {
+				ids = append(ids, o.ID)
+			}
+		}
+		inst := "-"
+		if m.VerifHasDKGInstance(round) || len(shadow) > 0 {
+			inst = strings.Join(shadow, ",")
+		}
+		return "log=" + strings.Join(ids, ",") + " inst=" + inst
+	}
+	lg := func(op types.Operation) string {
+		if op.IsSigningState() {
+			return "0"
+		}
+		return "1"
+	}
+	a.emit("reset", "ok")
+	for i, op := range ops {
+		if op.DKGIdentifier != round {
+			continue
+		}
+		if !everyStep && i == at {
+			switch kind {
+			case "after-step":
+				// handled below (restart after processing op at-1); here: restart before op `at`
+				if !restart() {
+					return
+				}
+				a.emit("restart", obsLog())
+			case "computed-not-logged":
+				func() {
+					defer func() { recover() }()
+					m.GetOperationResult(op)
+				}()
+				if !restart() {
+					return
+				}
+				a.emit("dies "+op.ID+" "+lg(op), obsLog())
+			case "logged-file-lost":
+				tryOperation(m, op, true) // the result file is lost (tryOperation removes it)
+				if !op.IsSigningState() {
+					shadow = append(shadow, op.ID)
+				}
+				a.emit("proc "+op.ID+" "+lg(op), obsLog())
+				if !restart() {
+					return
+				}
+				a.emit("restart", obsLog())
+				// the replay re-executes the logged operation and writes its result file again: that is the result the
+				// operator carries to the node (feeding the request a second time would be a second execution)
+				if op.IsSigningState() {
+					// signing requests are not logged (they do not change the machine): the operator simply feeds the request again
+					break
+				}
+				path := filepath.Join(mdir, "results", op.Filename()+"_result.json")
+				rb, err := os.ReadFile(path)
+				if err != nil {
+					a.mon(fmt.Sprintf("C12 carries_on_identically (%s): after the replay there is no result file for the logged operation %d (%s)", tag, i, op.Type))
+					return
+				}
+				var res types.Operation
+				got := "fatal:result file is not an operation"
+				if json.Unmarshal(rb, &res) == nil {
+					k := "result"
+					if strings.Contains(string(res.Event), "error") || strings.Contains(string(res.Event), "failed") {
+						k = "error-result"
+					}
+					got = resultDigest(airOutcome{kind: k, result: &res})
+				}
+				if i < len(ref) && !digestsEqual(got, ref[i]) {
+					a.mon(fmt.Sprintf("C12 carries_on_identically (%s): the replayed result of operation %d (%s) is %s, a machine that never stopped gives %s", tag, i, op.Type, truncate(got, 160), truncate(ref[i], 160)))
+					return
+				}
+				continue
+			}
+		}
+		got := resultDigest(tryOperation(m, op, true))
+		if !op.IsSigningState() {
+			shadow = append(shadow, op.ID)
+		}
+		a.emit("proc "+op.ID+" "+lg(op), obsLog())
+		if i < len(ref) && !digestsEqual(got, ref[i]) {
+			a.mon(fmt.Sprintf("C12 carries_on_identically (%s): operation %d (%s) gives %s, a machine that never stopped gives %s", tag, i, op.Type, truncate(got, 160), truncate(ref[i], 160)))
+			return
+		}
+		if everyStep {
+			if !restart() {
+				return
+			}
+			a.emit("restart", obsLog())
+		}
+	}
+	if got, _ := keyringOf(m, round); got != refKey {
+		a.mon(fmt.Sprintf("C12 same_keys (%s): the restarted machine ends with %s, a machine that never stopped with %s", tag, truncate(got, 90), truncate(refKey, 90)))
 	}
 }
 
